@@ -287,10 +287,66 @@ fn install_capture() {
 }
 
 fn take_output() -> String {
-    CAPTURE.with(|c| match c.borrow_mut().as_mut() {
+    let raw = CAPTURE.with(|c| match c.borrow_mut().as_mut() {
         Some(cap) => String::from_utf8_lossy(&cap.take()).into_owned(),
         None => String::new(),
-    })
+    });
+    mask_elapsed(&raw)
+}
+
+/// time(G) prints "<n> second(s) <m> microseconds " with figures read from the real clock — the
+/// one place where real time reaches an observable. The figures are masked; that the text is
+/// printed (once, in search order) stays observable.
+pub fn mask_elapsed(text: &str) -> String {
+    let b: Vec<char> = text.chars().collect();
+    let mut out = String::with_capacity(text.len());
+    let mut i = 0;
+    let digits = |from: usize| -> usize {
+        let mut j = from;
+        while j < b.len() && b[j].is_ascii_digit() {
+            j += 1;
+        }
+        j
+    };
+    let lit = |from: usize, s: &str| -> Option<usize> {
+        let cs: Vec<char> = s.chars().collect();
+        if from + cs.len() <= b.len() && b[from..from + cs.len()] == cs[..] {
+            Some(from + cs.len())
+        } else {
+            None
+        }
+    };
+    while i < b.len() {
+        let d1 = digits(i);
+        if d1 > i {
+            let after = lit(d1, " seconds ").or_else(|| lit(d1, " second "));
+            if let Some(a) = after {
+                let d2 = digits(a);
+                if d2 > a {
+                    if let Some(e) = lit(d2, " microseconds ") {
+                        // Only the last digit before " seconds" is the figure (no search here takes
+                        // ten real seconds); digits before it belong to whatever was printed just
+                        // before (a variable id, a number) — this keeps masking independent of
+                        // where the output was cut into chunks.
+                        for c in &b[i..d1 - 1] {
+                            out.push(*c);
+                        }
+                        out.push_str("<elapsed> ");
+                        i = e;
+                        continue;
+                    }
+                }
+            }
+            for c in &b[i..d1] {
+                out.push(*c);
+            }
+            i = d1;
+            continue;
+        }
+        out.push(b[i]);
+        i += 1;
+    }
+    out
 }
 
 fn me() -> usize {
